@@ -832,8 +832,8 @@ def roundtrip_stage(ctx: vlib.Ctx) -> None:
         for gi, g in enumerate(groups):
             jobs.append((f"stdlib{gi}", {"root": os.path.join(work, f"s{gi}"), "modules": g, "keep_data_below": 9000}, "0"))
         # determinism under a different hash seed: the first stdlib group and the programs again
-        seed_group = groups[0] if not ctx.quick else ["collections", "dataclasses", "enum", "ssl", "ast", "json", "typing_extensions", "functools"]
-        # (compared with the same modules of job stdlib0: a module's serialisation does not depend on the other roots)
+        seed_group = ["collections", "dataclasses", "enum", "ssl", "ast", "json", "typing_extensions", "functools"]
+        jobs.insert(1, ("seedgrp", {"root": os.path.join(work, "sa"), "modules": seed_group}, "0"))
         jobs.append(("seedgrp@seed", {"root": os.path.join(work, "sb"), "modules": seed_group}, "12345"))
         for pn, files in PROGRAMS.items():
             for tag, seed in (("", "0"), ("@seed", "4711")):
@@ -905,7 +905,7 @@ def roundtrip_stage(ctx: vlib.Ctx) -> None:
         # determinism across hash seeds
         n_det = 0
         for name in list(by_name):
-            base = "stdlib0" if name == "seedgrp@seed" else name[:-5]
+            base = name[:-5]
             if name.endswith("@seed") and base in by_name:
                 a, b = by_name[base]["modules"], by_name[name]["modules"]
                 for mod in a:
@@ -916,6 +916,25 @@ def roundtrip_stage(ctx: vlib.Ctx) -> None:
                             n_det += 1
                             if a[mod][k] != b[mod][k] and not (k.startswith("ihash") and False):
                                 ctx.violation(f"hashseed:{k}:{mod}", f"module {mod}: {k} depends on PYTHONHASHSEED", {"job": name, "module": mod, "key": k})
+        # independence of irrelevant context: the same module built together with a different set of root modules
+        # (same sources, same dependencies, same hash seed) must serialize to the same bytes / interface hash
+        if "seedgrp" in by_name:
+            differing = []
+            for mod, a in sorted(by_name["seedgrp"]["modules"].items()):
+                for job, r in by_name.items():
+                    if job.startswith("stdlib") and mod in r["modules"]:
+                        n_det += 1
+                        b = r["modules"][mod]
+                        if any(a.get(k) != b.get(k) for k in ("fresh_bin_bin", "ihash_bin", "ihash_json") if k in a and k in b):
+                            differing.append(mod)
+                        break
+            ctx.cov["root_set_comparisons"] = len(by_name["seedgrp"]["modules"])
+            if differing:
+                ctx.violation("interface-bytes-depend-on-build-roots",
+                              f"modules {differing[:6]}: serialized interface and interface hash differ between a build with 8 root modules and a "
+                              f"build with {len(QUICK_MODULES) if ctx.quick else 60} root modules (same sources, same PYTHONHASHSEED): a TypeVarId.raw_id "
+                              f"allocated from the process-global counter TypeVarId.next_raw_id is serialized",
+                              {"kind": "root-set-dependence", "modules": differing, "repro": ROOTS_REPRO})
         ctx.add("evaluations", n_mod * 4 + n_det)
         ctx.cov["modules_round_tripped"] = n_mod
         ctx.cov["symbols_walked"] = n_sym
@@ -962,6 +981,13 @@ def model_file_stage(ctx: vlib.Ctx, by_name: dict[str, dict[str, Any]]) -> None:
     ctx.add("traces_validated_against_impl", len(files))
     ctx.cov["data_files_decoded_by_model"] = {"files": len(files), "bytes": sum(len(b) for _, b in files), "largest": max((len(b) for _, b in files), default=0)}
     ctx.sample({"data_file": files[0][0] if files else None, "bytes": len(files[0][1]) if files else 0, "model": out[0] if out else None})
+
+
+ROOTS_REPRO = """cd $(mktemp -d); export PYTHONPATH=/repo PYTHONHASHSEED=0
+python -m mypy --no-sqlite-cache --cache-dir=c1 -m collections
+python -m mypy --no-sqlite-cache --cache-dir=c2 -m collections -m dataclasses -m enum -m ssl -m ast -m json -m typing_extensions -m functools
+cmp c1/3.12/collections/__init__.data.ff c2/3.12/collections/__init__.data.ff     # differ
+# the only difference: collections.UserString.maketrans has TypeVarType id 265 in c1 and 307 in c2 (TypeVarId.new())"""
 
 
 TD_REPRO = """mkdir t && cd t && printf 'from typing import TypedDict\\nclass TD(TypedDict):\\n    b: int\\n    a: str\\n' > m.py
